@@ -390,3 +390,43 @@ func runC20(r *Run) {
 		}
 	}
 }
+
+// blockedInLibrary summarises (function names only) the goroutines of the current
+// bubble that are inside a library call: used in "stuck" reports, where the
+// scheduler's parked list cannot show calls blocked on the library's own channels.
+func blockedInLibrary() []string {
+	buf := make([]byte, 1<<20)
+	n := runtime.Stack(buf, true)
+	blocks := strings.Split(string(buf[:n]), "\n\n")
+	if len(blocks) == 0 {
+		return nil
+	}
+	m := bubbleRe.FindStringSubmatch(blocks[0])
+	if m == nil {
+		return nil
+	}
+	tag := "synctest bubble " + m[1] + "]"
+	var out []string
+	for _, b := range blocks[1:] {
+		lines := strings.Split(b, "\n")
+		if !strings.Contains(lines[0], tag) || !strings.Contains(b, "nhooyr.io/websocket.") {
+			continue
+		}
+		var fns []string
+		for _, l := range lines[1:] {
+			if strings.HasPrefix(l, "\t") || strings.HasPrefix(l, "created by") {
+				continue
+			}
+			if i := strings.LastIndexByte(l, '('); i > 0 {
+				l = l[:i]
+			}
+			l = strings.TrimPrefix(l, "nhooyr.io/websocket.")
+			fns = append(fns, l)
+			if len(fns) == 7 {
+				break
+			}
+		}
+		out = append(out, strings.Join(fns, " < "))
+	}
+	return out
+}
